@@ -422,3 +422,7 @@ def run(db, ctx):
     r184(db, ctx)
     r185(db, ctx)
     r186(db, ctx)
+    # an empty matrix has no row 0: the buffer exports must take the dangling-pointer branch exactly then (seed C18-8 tested shape[0], which is the
+    # lane count for the striped classes)
+    from . import C17
+    common.shared_rule(db, ctx, C17.r176, 'R18.8', 'no undischarged panic site in the binding (buffer exports of empty matrices, index normalisation) — shared with R17.6', ['R17.6'])
